@@ -359,7 +359,7 @@ func runC09(c *explore.Ctx) {
 		forEachProfileDoc(c, s, "", func(d kitDoc) { c09Doc(c, s, d) })
 		s.WallS = time.Since(t0).Seconds()
 	}
-	n := c.Pick(7, 10)
+	n := c.Pick(7, 12)
 	s = c.Sub("type-blind", fmt.Sprintf("every type-blind document of ≤ %d tokens that both sides accept", n), "as above", "documents both sides accept")
 	if s != nil {
 		t0 := time.Now()
